@@ -80,12 +80,12 @@ ADDED = {
  "C06": " Added: bodies with exact sizes, limits around the decompressed length, cloned clients/servers, a second call after a refusal, a request stream that never ends behind an oversized prefix.",
  "C07": " Added: receiver size limits, 70 000-byte messages with frame-shaped neighbours, a 400-byte byte-by-byte drip, runs of up to 10^6 empty DATA frames decoded in child processes; oracle added in wave 6: a body that stops inside a length prefix or a payload must end with an error (found and fixed 4063d39d).",
  "C08": " Added: OK trailers of streaming calls, statuses behind foreign error types, an interceptor's user-agent over the real channel; padded base64 on the wire is accepted.",
- "C09": " Added: zero deadlines, sequences of calls on one channel, callers that stay away, calls moved to another task.",
+ "C09": " Added: zero deadlines, sequences of calls on one channel, callers that stay away, calls moved to another task, bare-client cases repeated under content-type application/grpc+proto.",
  "C10": " Added: add_routes / optional services, request streams that never end and 3 MiB messages on unknown paths, PUT / GET and +subtype content-types.",
  "C11": " Added: every prost-front-end program is compiled together with two neighbour files of other packages.",
  "C12": " Added: request sequences (second request on the same service or a clone), reserved names with several values in the rejecting status, visible-ASCII %XX messages.",
- "C13": " Added: listener ending, accept errors, max_connection_age around the signal, idle clients, a request reaching an unused connection together with the signal.",
- "C14": " Added: a connector that never answers, keeps the tower contract and fails for rotating reasons (incl. a Status of its own); discovery histories of a balanced channel with reachable and unreachable endpoints over loopback sockets.",
+ "C13": " Added: listener ending, accept errors, max_connection_age around the signal, idle clients, a request reaching an unused connection together with the signal, a backlog of 40 connections at the listener when the signal fires (signal must not starve).",
+ "C14": " Added: a connector that never answers, keeps the tower contract and fails for rotating reasons (incl. a Status of its own); discovery histories of a balanced channel with reachable and unreachable endpoints over loopback sockets, a call issued while the balanced endpoint set is empty and the endpoint registered afterwards.",
  "C15": " Added: failed handshakes followed by plaintext / proper clients, connection sequences (resumed session without ALPN, second listener requiring a certificate, clones of one ClientTlsConfig), balanced endpoints with different TLS settings over a loopback TLS server.",
  "C16": " Added: sized inner responses, case variants of the grpc-web content types, inner responses labelled application/grpc+proto / +json, a trailer value with non-UTF-8 octets.",
  "C17": " Added: segmented transport buffers, 9000-byte messages cut around the 8 KiB buffer, response content-type spellings, lost wake-ups, 3-4 frames of unequal sizes under every pair of cuts and in equal blocks, trailers frames with stray CR / LF / NUL bytes (termination only).",
